@@ -440,3 +440,74 @@ class InterpolateFromValuesAndScalars(Contract):
 
     ensures = [prop("weighted-sum", lambda a, old, r: eq(
         0 if r is None else r, sum((v * s for v, s in zip(a.values, a.scalars)), 0)))]
+
+
+# -- the model as a whole: interpolating at a master's location returns that master -----------------
+
+@contract
+class ModelReproducesMasters(Contract):
+    """C09, first sentence, for small master sets with SYMBOLIC coordinates: build the real
+    VariationModel, compute deltas from symbolic master values, and interpolate at every
+    master's location: the result is exactly that master's value - whatever the coordinates
+    (every ordering, sign pattern, on/off-axis placement the shape allows)."""
+    module = "fontTools.varLib.models"
+    qualname = "VariationModel.__init__"
+    props = ("C09", "C10")
+    shadow_mode = "real"
+    variants = ("1axis-2", "1axis-3", "2axes-corner", "2axes-offaxis-only", "2axes-L", "1axis-4", "2axes-two-corners",
+                "2axes-cross", "3axes-axes-and-corner")
+    level = "PF"
+    max_paths = 200000
+
+    def variants_for(self, tier):
+        return self.variants[:6] if tier == "quick" else self.variants
+    timeout_ms = 20000
+    assumptions = ("A-REAL",)
+
+    SHAPES = {
+        "1axis-2": [{}, {"a": "x1"}],
+        "1axis-3": [{}, {"a": "x1"}, {"a": "x2"}],
+        "2axes-corner": [{}, {"a": "x1"}, {"b": "y1"}, {"a": "x2", "b": "y2"}],
+        "2axes-offaxis-only": [{}, {"a": "x1", "b": "y1"}],
+        "2axes-L": [{}, {"a": "x1"}, {"a": "x2", "b": "y2"}],
+        "1axis-4": [{}, {"a": "x1"}, {"a": "x2"}, {"a": "x3"}],
+        "2axes-two-corners": [{}, {"a": "x1"}, {"b": "y1"}, {"a": "x2", "b": "y2"}, {"a": "x3", "b": "y3"}],
+        "2axes-cross": [{}, {"a": "x1"}, {"a": "x2"}, {"b": "y1"}, {"b": "y2"}, {"a": "x3", "b": "y3"}],
+        "3axes-axes-and-corner": [{}, {"a": "x1"}, {"b": "y1"}, {"c": "z1"}, {"a": "x2", "b": "y2", "c": "z2"}],
+    }
+
+    def args(self, S, variant):
+        shape = self.SHAPES[variant]
+        syms = {}
+        locs = []
+        for loc in shape:
+            d = {}
+            for ax, nm in loc.items():
+                if nm not in syms:
+                    syms[nm] = S.real(nm)
+                d[ax] = syms[nm]
+            locs.append(d)
+        return dict(locations=locs, _values=[S.real("m%d" % i) for i in range(len(shape))], _syms=syms)
+
+    def requires(self, a):
+        cs = [And(-1 <= v, v <= 1, Not(eq(v, 0))) for v in a._syms.values()]
+        # locations must be pairwise distinct (the constructor refuses duplicates)
+        locs = a.locations
+        for i in range(len(locs)):
+            for j in range(i + 1, len(locs)):
+                if set(locs[i]) == set(locs[j]) and locs[i]:
+                    cs.append(Or(*[Not(eq(locs[i][k], locs[j][k])) for k in locs[i]]))
+        return And(*cs)
+
+    def call(self, f, a):
+        cls = self.mod.VariationModel
+        m = cls([dict(l) for l in a.locations], ["a", "b", "c"])
+        deltas = m.getDeltas(list(a._values))
+        return [m.interpolateFromDeltas(loc, deltas) for loc in a.locations]
+
+    from fontTools.varLib.errors import VariationModelError as _E
+    raises = {_E: None}
+    raises_iff = False
+
+    ensures = [prop("interpolating-at-each-master-returns-that-master", lambda a, old, r: And(*[
+        eq(0 if got is None else got, want) for got, want in zip(r, a._values)]))]
